@@ -372,6 +372,11 @@ func runC07(t *testing.T, spec RunSpec) *RunResult {
 			res.Violations = append(res.Violations, *v)
 		}
 		res.Violations = append(res.Violations, panicViolations(w, "C07/panic")...)
+		if stuck := w.Stuck(); len(stuck) > 0 && len(res.Violations) == 0 {
+			// a message handler that never returns holds up the connection it serves (and a dispatcher that serves
+			// several): the member no longer answers the queries of slower members
+			res.Violations = append(res.Violations, netsim.Violation{Invariant: "C07/handler-blocked", Class: "C07/handler-blocked", Detail: fmt.Sprintf("HandleMessage did not return for %v although the system is quiescent", stuck[0])})
+		}
 		viol := func(class, detail string) {
 			res.Violations = append(res.Violations, netsim.Violation{Invariant: "C07/" + class, Class: "C07/" + class, Detail: detail})
 		}
